@@ -84,13 +84,32 @@ fn main() {
 '''
 
 
+# a type to be `encoded_as` that is not the compact form: it encodes like the wrapped integer
+PLAIN_RS = '''pub struct Plain<T>(pub T);
+impl<T: Encode> Encode for Plain<T> {
+	fn encode_to<W: parity_scale_codec::Output + ?Sized>(&self, d: &mut W) { self.0.encode_to(d) }
+}
+impl<T: Decode> Decode for Plain<T> {
+	fn decode<I: parity_scale_codec::Input>(i: &mut I) -> Result<Self, parity_scale_codec::Error> { Ok(Plain(T::decode(i)?)) }
+}
+impl<T: DecodeWithMemTracking> DecodeWithMemTracking for Plain<T> {}
+pub struct PlainRef<'a, T>(pub &'a T);
+impl<'a, T: Encode> Encode for PlainRef<'a, T> {
+	fn encode_to<W: parity_scale_codec::Output + ?Sized>(&self, d: &mut W) { self.0.encode_to(d) }
+}
+impl<'a, T> From<&'a T> for PlainRef<'a, T> { fn from(x: &'a T) -> Self { PlainRef(x) } }
+impl<'a, T: Encode + 'a> parity_scale_codec::EncodeAsRef<'a, T> for Plain<T> { type RefType = PlainRef<'a, T>; }
+macro_rules! plain_into { ($($t:ty),*) => {$( impl From<Plain<$t>> for $t { fn from(p: Plain<$t>) -> $t { p.0 } } )*}; }
+plain_into!(u8, u16, u32, u64, u128);'''
+
+
 def rust_default(ty):
     return "Default::default()"
 
 
 def gen_struct_def(r, name):
     shape = r.choice(["tuple", "named", "named", "unit"])
-    fields = [] if shape == "unit" else [G.gen_field(r) for _ in range(r.randint(1, 4))]
+    fields = [] if shape == "unit" else [G.gen_field(r, plain_wrapper=True) for _ in range(r.randint(1, 4))]
     return dict(kind="struct", name=name, shape=shape, fields=fields, transparent=False)
 
 
@@ -98,13 +117,16 @@ def gen_enum_def(r, name):
     n = r.choice([1, 2, 3, 4, 5])
     vs = []
     for k in range(n):
-        v = {"name": "V%d" % k, "skip": r.random() < 0.2, "index": None, "disc": None, "fields": [], "shape": "unit"}
-        src = r.choice(["pos", "pos", "attr"])
+        v = {"name": "V%d" % k, "skip": r.random() < 0.2, "index": None, "disc": None, "fields": [], "shape": "unit", "rev": r.choice([0, 1])}
+        src = r.choice(["pos", "pos", "attr", "disc"])
         if src == "attr":
             v["index"] = r.choice([0, 1, 2, 3, 7, 9, 100, 200, 255])
+        elif src == "disc":
+            # explicit discriminants also on variants with fields (the enum then gets a primitive repr)
+            v["disc"] = r.choice([4, 5, 6, 8, 11, 40, 41, 42, 250])
         if r.random() < 0.65:
             v["shape"] = r.choice(["tuple", "named"])
-            v["fields"] = [G.gen_field(r) for _ in range(r.randint(1, 3))]
+            v["fields"] = [G.gen_field(r, plain_wrapper=True) for _ in range(r.randint(1, 3))]
         vs.append(v)
     return dict(kind="enum", name=name, variants=vs)
 
@@ -173,7 +195,7 @@ def ty_coq(d):
 
 def minw(d):
     if d["kind"] == "struct":
-        return sum((1 if f["attr"] in ("compact", "encoded_as") else MINW[f["ty"][0]]) for f in d["fields"] if f["attr"] != "skip")
+        return sum((1 if f["attr"] in ("compact", "encoded_as") else MINW[f["ty"][0]]) for f in d["fields"] if f["attr"] != "skip")  # as_plain: the type's own width
     return 1
 
 
@@ -265,7 +287,7 @@ def run(g, cfg, pid, tier, seed, work, problems):
     if os.path.exists(lock):
         shutil.copy(lock, os.path.join(crate, "Cargo.lock"))
     open(os.path.join(crate, "src", "main.rs"), "w").write(MAIN_RS.replace("H/", os.path.join(ROOT, "harness", "src") + "/"))
-    T = ["use crate::common::*;", "use crate::universe::{nest, Uni};", "use parity_scale_codec::{Decode, DecodeWithMemTracking, Encode};", ""]
+    T = ["use crate::common::*;", "use crate::universe::{nest, Uni};", "use parity_scale_codec::{Decode, DecodeWithMemTracking, Encode};", "", PLAIN_RS, ""]
     for d in defs:
         T += render(d) + [""]
     nonempty = [d for d in defs if not (d["kind"] == "enum" and not [v for v in d["variants"] if not v["skip"]])]
@@ -313,7 +335,7 @@ def run(g, cfg, pid, tier, seed, work, problems):
         stats = json.load(open(os.path.join(work, "stats.json")))
     except Exception:
         stats = dict(evaluations=0, distinct_nontrivial=0)
-    stats["rule"] = ("seeded type definitions over the attribute grammar (unit / tuple / named structs; enums with unit, tuple and named variants; fields plain / compact / encoded_as / skip over 14 field types; variants with index attributes, explicit discriminants, both at once, implicit positions, skip) plus fixed shapes (single non-skipped field, all fields skipped, repr(transparent) with and without compact, all variants skipped, empty enum, skipped variant in the middle), also nested in Vec / Box / arrays / Option; per type: seeded values -> encode vs the model's encoding of the descriptor derived from the definition, decode of the encoding + suffix, three mutations, and every possible first byte; every value in a skipped variant is encoded in a child process (must print no bytes and exit). non-trivial = non-empty input")
+    stats["rule"] = ("seeded type definitions over the attribute grammar (unit / tuple / named structs; enums with unit, tuple and named variants; fields plain / compact / encoded_as the compact type / encoded_as a non-compact wrapper / skip over 14 field types; attributes on a variant as separate attributes in both orders; variants with index attributes, explicit discriminants (also on variants with fields), both at once, implicit positions, skip) plus fixed shapes (single non-skipped field, all fields skipped, repr(transparent) with and without compact, all variants skipped, empty enum, skipped variant in the middle), also nested in Vec / Box / arrays / Option; per type: seeded values -> encode vs the model's encoding of the descriptor derived from the definition, decode of the encoding + suffix, three mutations, and every possible first byte; every value in a skipped variant is encoded in a child process (must print no bytes and exit). non-trivial = non-empty input")
     stats["oracle_checks"] = int(stats.get("oracle_checks", 0)) + len(pr)
     stats.setdefault("distribution", {})["definitions"] = len(defs)
     stats["distribution"]["skipped_variant_probes"] = len(pr)
